@@ -53,19 +53,28 @@ def check (params : List String) (lines : List String) : CaseResult := Id.run do
     r := { r with nontrivial := field ws "batches" ≥ 1 && kindsBusy ≥ 3 }
   -- sequential token semantics for the C01-style programs
   if kind == "prog" && !(rest.any (·.startsWith "harness-error")) && conc.isSome then
-    let j := Bpmn.Driver.C01.judge (parseCase rest)
+    let c := parseCase rest
+    let j := Bpmn.Driver.C01.judge c
+    let hasIncl := c.proc.nodes.any (fun n => n.kind == Bpmn.Model.Engine.Kind.incl)
     for b in j.bad do r := { r with bad := b :: r.bad }
     for d in j.diffs do
       r := { r with infos := s!"engine model (C01 correspondence, not judged here): {d}" :: r.infos }
     for i in j.infos do r := { r with infos := i :: r.infos }
     for s in j.specs do
       let sig := ((s.splitOn ":").headD "").trimAscii.toString
-      if sig == "unexplained_deviation" then
-        r := { r with specs := s!"outcome:unexplained_deviation: not an outcome of the sequential token semantics: {s}" :: r.specs }
+      if sig == "engine_call_blocked" then
+        r := { r with infos := s!"{s}" :: r.infos }
       else if sig == "engine_does_not_quiesce" then
         r := { r with specs := s!"outcome:noquiesce: {s}" :: r.specs }
+      else if sig == "unexplained_deviation" then
+        -- the engine model cannot resolve the races inside the inclusive gateway's tracker protocol (C01 tolerates them
+        -- the same way); such a deviation is keyed on the presence of an inclusive gateway, anything else is unexplained
+        let k := if hasIncl then "outcome:inclusive_gateway" else "outcome:unexplained_deviation"
+        r := { r with specs := s!"{k}: not an outcome of the sequential token semantics: {s}" :: r.specs }
       else
-        r := { r with infos := s!"deviation attributed to a cause the engine model logs (C01's finding): {s}" :: r.infos }
+        -- causes the engine model logs (C01's known deviations), re-keyed for this property
+        let k := "+".intercalate ((sig.splitOn "+").map (fun p => "outcome:" ++ p))
+        r := { r with specs := s!"{k}: deviation from the token game explained by a cause the engine model logs: {s}" :: r.specs }
   else
     for l in rest do
       if l.startsWith "harness-error" then r := { r with bad := l :: r.bad }
